@@ -197,7 +197,8 @@ cdef class KmerFinder:
                 stop = seq_length + stop
                 if stop <= 0:  # No need to search
                     continue
-            elif stop == 0:  # stop == 0 means go to end of sequence.
+            elif stop == 0 or stop > seq_length:
+                # stop == 0 means go to end of sequence.
                 stop = seq_length
             search_length = stop - start
             if search_length <= 0:
